@@ -146,6 +146,34 @@ Theorem C15_estimate_overflow_witness :
   ts_update_local_frame_advantage false 200000000 60 0 0 0 = Ok 1705032.
 Proof. exact ts_ulfa_overflow. Qed.
 
+(* ---- (b') the recommendation gate (P2PSession::check_wait_recommendation) ----------------------
+   For EVERY sequence of calls (any frames, any frames_ahead values, no monotonicity assumed), from
+   any gate state: *)
+
+(* a WaitRecommendation is raised only while frames_ahead >= MIN_RECOMMENDATION (= 3) and carries
+   exactly that value; the u32 conversion in front of the event can never panic *)
+Theorem C15_gate_value : forall calls next cf fa k,
+  In (cf, fa, Some k) (gate_run next calls) -> next < cf /\ k = fa /\ MIN_RECOMMENDATION <= fa.
+Proof. exact gate_run_above. Qed.
+
+Theorem C15_gate_total : forall calls next, length (gate_run next calls) = length calls.
+Proof. exact gate_run_length. Qed.
+
+(* two recommendations of one run are more than RECOMMENDATION_INTERVAL (= 60) frames apart *)
+Theorem C15_gate_spacing : forall calls next pre cf1 fa1 k1 post cf2 fa2 k2,
+  gate_run next calls = pre ++ (cf1, fa1, Some k1) :: post ->
+  In (cf2, fa2, Some k2) post ->
+  cf1 + RECOMMENDATION_INTERVAL < cf2.
+Proof. exact gate_spacing. Qed.
+
+(* and none is withheld *)
+Theorem C15_gate_emits : forall next cf fa, next < cf -> MIN_RECOMMENDATION <= fa ->
+  gate_step next cf fa = Ok (cf + RECOMMENDATION_INTERVAL, Some fa).
+Proof. exact gate_step_emits. Qed.
+
+Theorem C15_gate_consts : MIN_RECOMMENDATION = 3 /\ RECOMMENDATION_INTERVAL = 60.
+Proof. exact gate_consts. Qed.
+
 (* ---- (c) non-vacuity ------------------------------------------------------------------------- *)
 
 (* a steady lead of 5 with jitter: hypotheses of C15_avg_steady are satisfiable, result computed *)
@@ -190,6 +218,12 @@ Example C15_ex_sum_overflow :
   exists a, ts_average_frame_advantage false {| ts_local := repeat 2147483647 30; ts_remote := repeat 0 30 |} = Ok a.
 Proof. vm_compute. exact (conj eq_refl (ex_intro _ _ eq_refl)). Qed.
 
+(* a run through the gate: a lead that comes and goes; three recommendations at frames 2, 63, 124 *)
+Example C15_ex_gate : gate_run gate_init gate_ex_calls =
+  [(1, 0, None); (2, 3, Some 3); (3, 5, None); (40, 7, None); (62, 2, None); (63, 4, Some 4);
+   (64, 4, None); (123, 2, None); (124, 9, Some 9)].
+Proof. exact gate_ex_ok. Qed.
+
 Check C15_avg_steady : forall dbg k ts,
   -7 <= k <= 7 ->
   ts_wf ts ->
@@ -204,3 +238,9 @@ Check C15_estimate : forall dbg L e fps lr lf cur,
   0 <= lr <= 1073741824 -> 0 <= lf <= 1073741824 ->
   ts_update_local_frame_advantage dbg (2 * L + e) fps lr lf cur =
     Ok (lr + L * fps / 1000 - lf).
+Check C15_gate_spacing : forall calls next pre cf1 fa1 k1 post cf2 fa2 k2,
+  gate_run next calls = pre ++ (cf1, fa1, Some k1) :: post ->
+  In (cf2, fa2, Some k2) post ->
+  cf1 + RECOMMENDATION_INTERVAL < cf2.
+Check C15_gate_value : forall calls next cf fa k,
+  In (cf, fa, Some k) (gate_run next calls) -> next < cf /\ k = fa /\ MIN_RECOMMENDATION <= fa.
